@@ -2,8 +2,9 @@ import DEngine.Model.Proto
 import DEngine.Model.Apply
 /-!
 Driver of the `apply` family (C06).  Case: `mb=<n>|op;op;…` — see harness/src/bin/apply.rs.
-`p` = the commit-handler task runs until its channel is empty = `run1` repeated; after the last op the
-worker drains its queue (`work` repeated).
+`p` = the commit-handler task runs until its channel is empty = `run1` repeated, then the worker's `fetch`;
+`w` = `apply` then `fetch`; `r` = `restart`; `s:<S>` = `snap S`; after the last op the worker drains its
+queue (`apply`/`fetch` repeated).
 -/
 open DEngine DEngine.Proto DEngine.Apply
 
